@@ -6,7 +6,7 @@ import inspect
 from . import smt
 from .terms import (And, Or, Not, Implies, Ite, Eq, asV, asB, asI, asS, mkB, mkI, mkS, TRUE, FALSE,
                     const_term, seq_of_terms, KIND_OF_PY)
-from .values import (Val, PyC, PyList, SymObj, Closure, BM, Exc, OutOfSubset, fresh_name)
+from .values import (Val, PyC, PyList, SymObj, SDict, Closure, BM, Exc, OutOfSubset, fresh_name)
 
 
 def is_exc(v):
@@ -111,6 +111,18 @@ class ExprMixin:
                 return a
             if isinstance(a, PyC) and isinstance(b, PyC) and a.obj is b.obj:
                 return a
+            if isinstance(a, SDict) and isinstance(b, SDict) and a.term is None and b.term is None:
+                ent = {}
+                for k in list(a.entries) + [k for k in b.entries if k not in a.entries]:
+                    ca, va = a.entries.get(k, (FALSE, None))
+                    cb, vb = b.entries.get(k, (FALSE, None))
+                    if va is None:
+                        ent[k] = (And(Not(d), cb), vb)
+                    elif vb is None:
+                        ent[k] = (And(d, ca), va)
+                    else:
+                        ent[k] = (Ite(d, ca, cb), join(va, vb))
+                return SDict(ent)
             if isinstance(a, (Closure, BM)) or isinstance(b, (Closure, BM)) or isinstance(a, dict) or isinstance(b, dict):
                 raise OutOfSubset("join of python-side values")
             if isinstance(a, SymObj) or isinstance(b, SymObj):
@@ -237,6 +249,11 @@ class ExprMixin:
             out = []
             for s, vals in self.ev_seq(st, list(n.values)):
                 out.append((s, vals if is_exc(vals) else BoolSwitch({k.value: v for k, v in zip(n.keys, vals)})))
+            return out
+        if all(k is not None and isinstance(k, ast.Constant) and isinstance(k.value, str) for k in n.keys):
+            out = []
+            for s, vals in self.ev_seq(st, list(n.values)):
+                out.append((s, vals if is_exc(vals) else SDict({k.value: (TRUE, v) for k, v in zip(n.keys, vals)})))
             return out
         # {k: v, **d}: association sequence; later keys override earlier ones (dmerge axioms)
         nodes = []
@@ -470,6 +487,8 @@ class ExprMixin:
     def contains(self, st, container, x, node, negate=False):
         def fin(t):
             return mkB(Not(t) if negate else t)
+        if isinstance(container, SDict) and container.term is None and isinstance(x, PyC) and isinstance(x.obj, str):
+            return [(st, fin(container.entries.get(x.obj, (FALSE, None))[0]))]
         if isinstance(container, PyList):
             parts = []
             for it in container.items:
@@ -647,6 +666,11 @@ class ExprMixin:
         return out
 
     def getitem(self, st, base, idx, node):
+        if isinstance(base, SDict) and base.term is None and isinstance(idx, PyC) and isinstance(idx.obj, str):
+            if idx.obj not in base.entries:
+                return self.raising(st, None, [(KeyError, TRUE)], node)[:-1]
+            cnd, val = base.entries[idx.obj]
+            return self.raising(st, val, [(KeyError, Not(cnd))], node)
         if isinstance(base, BoolSwitch):
             if isinstance(idx, PyC) and isinstance(idx.obj, bool):
                 return [(st, base.table[idx.obj])]
